@@ -2,14 +2,62 @@
 
 ALLOC = 128 * 1024  # 16 x MaxMatchingBytes (DESIGN section 5, C04)
 
+
+def H(name, quick=None, thorough=None, **kw):
+    d = {"name": name}
+    if quick is not None:
+        d["quick"] = {"params": quick} if not ("params" in quick or "unwind" in quick or "preempt" in quick) else quick
+    if thorough is not None:
+        d["thorough"] = {"params": thorough} if not ("params" in thorough or "unwind" in thorough or "preempt" in thorough) else thorough
+    d.update(kw)
+    return d
+
+
+C04_OPTS = {"alloc_limit": ALLOC}
 CHECKS = {
     "C04": {
         "harnesses": [
-            {"name": "c04.VH_postgres", "opts": {"alloc_limit": ALLOC}, "quick": {"params": {"L": 16}}, "thorough": {"params": {"L": 20}}},
+            H("c04.VH_postgres", {"L": 16}, {"L": 20}, opts=C04_OPTS, covers=["match returned"], weight=3),
+            H("c04.VH_ssh", {"L": 8}, {"L": 16}, opts=C04_OPTS, covers=["match returned"]),
+            H("c04.VH_xmpp", {"L": 56}, {"L": 64}, opts=C04_OPTS, covers=["match returned"]),
+            H("c04.VH_socks4", {"L": 12}, {"L": 16}, opts=C04_OPTS, covers=["match returned"]),
+            H("c04.VH_socks4_filter", {"L": 12}, {"L": 16}, opts=C04_OPTS, covers=["match returned"]),
+            H("c04.VH_socks5", {"L": 10}, {"L": 40}, opts=C04_OPTS, covers=["match returned"]),
+            H("c04.VH_socks5_filter", {"L": 10}, {"L": 40}, opts=C04_OPTS, covers=["match returned"]),
+            H("c04.VH_proxyproto", {"L": 16}, {"L": 20}, opts=C04_OPTS, covers=["match returned"]),
+            H("c04.VH_regexp", {"L": 8}, {"L": 12}, opts=C04_OPTS, covers=["match returned"]),
+            H("c04.VH_regexp_default", {"L": 6}, {"L": 8}, opts=C04_OPTS, covers=["match returned"]),
+            H("c04.VH_wireguard", {"L": 150}, {"L": 160}, opts=C04_OPTS, covers=["match returned"]),
+            H("c04.VH_wireguard_zero", {"L": 150}, {"L": 160}, opts=C04_OPTS, covers=["match returned"]),
+            H("c04.VH_winbox", {"params": {"L": 42}}, {"params": {"L": 300}, "unwind": 320}, opts=C04_OPTS, covers=["match returned"]),
+            H("c04.VH_winbox_frombytes", {"params": {}, "unwind": 600}, {"params": {}, "unwind": 600}, opts=C04_OPTS, covers=["match returned"], weight=4),
+            H("c04.VH_winbox_big", None, {"params": {"L": 258, "LMIN": 256}, "unwind": 320, "timeout_ms": 300000}, opts=C04_OPTS, covers=["match returned"], weight=8, tiers=("thorough",)),
+            H("c04.VH_winbox_filter", {"L": 42}, {"L": 48}, opts=C04_OPTS, covers=["match returned"]),
+            H("c04.VH_winbox_user", {"L": 42}, {"L": 48}, opts=C04_OPTS, covers=["match returned"]),
+            H("c04.VH_rdp", {"L": 19}, {"L": 22}, opts=C04_OPTS, covers=["match returned"], weight=4),
+            H("c04.VH_rdp_filter", {"L": 19}, {"L": 21}, opts=C04_OPTS, covers=["match returned"]),
+            H("c04.VH_rdp_token", {"L": 19}, {"L": 21}, opts=C04_OPTS, covers=["match returned"]),
+            H("c04.VH_openvpn_tcp", {"L": 90}, {"L": 96}, opts=C04_OPTS, covers=["match returned"]),
+            H("c04.VH_openvpn_udp", {"L": 88}, {"L": 96}, opts=C04_OPTS, covers=["match returned"]),
+            H("c04.VH_openvpn_crypt2_tcp", {"L": 1082}, {"L": 1090}, opts=C04_OPTS, covers=["match returned"]),
+            H("c04.VH_openvpn_crypt2_udp", {"L": 1080}, {"L": 1090}, opts=C04_OPTS, covers=["match returned"]),
+            H("c04.VH_tls", {"L": 54}, {"L": 57}, opts=C04_OPTS, covers=["match returned"], weight=4),
+            H("c04.VH_quic_tcp", {"L": 4}, {"L": 8}, opts=C04_OPTS, covers=["match returned"]),
+            H("c04.VH_dns_tcp", {"L": 16}, {"L": 20}, opts=C04_OPTS, covers=["match returned"], validate=False),
+            H("c04.VH_dns_udp", {"L": 16}, {"L": 20}, opts=C04_OPTS, covers=["match returned"], validate=False),
+            H("c04.VH_dns_rules", {"L": 14, "NQ": 1}, {"L": 14, "NQ": 2}, opts=C04_OPTS, covers=["match returned"], validate=False),
+            H("c04.VH_http_ishttp", {"L": 24}, {"L": 64}, opts=C04_OPTS, covers=["match returned"]),
+            H("c04.VH_http_match", {"L": 24}, {"L": 64}, opts=C04_OPTS, covers=["match returned"]),
         ],
-        "assumptions": [],
-        "outside": [],
-        "bounds": {"quick": "", "thorough": ""},
+        "level_text": "bounded model checking: every matcher's real Match is executed symbolically on an arbitrary byte string up to the per-matcher length bound, over TCP- or UDP-like local addresses, in default and filtered configurations; every Go run-time check (index, slice, nil, divide, make size) and every make([]byte,n) above 128 KiB is an SMT query; counterexamples are replayed against the real build",
+        "level_note": "inputs longer than the stated bound are outside the claim; third-party back ends (miekg/dns Unpack/Len are havoc stubs; net/http, hpack, quic-go, the PROXY-protocol library parser are not executed); regexp semantics via an NFA simulation of regexp/syntax; TLS and QUIC matchers run unprovisioned (no sub-matchers)",
+        "assumptions": [
+            "dns.Msg.Unpack / Len replaced by havoc stubs (any result, no panic): the third-party parser is outside the claim",
+            "allocation limit fixed at 128 KiB = 16 x MaxMatchingBytes",
+        ],
+        "outside": ["inputs longer than the per-matcher bound L", "net/http, http2/hpack, quic-go, miekg/dns, mastercactapus/proxyprotocol internals", "QUIC matcher beyond its first-byte checks"],
+        "bounds": {"quick": "L per matcher: postgres 16, ssh 8, xmpp 56, socks4 12, socks5 10, proxy_protocol 16, regexp 8, wireguard 150, winbox 42 and 255..260, rdp 19, openvpn 90 / 1082 (crypt2), tls 54, dns 16, isHttp 24",
+                   "thorough": "postgres 20, socks5 40, winbox 300, rdp 22, tls 57, isHttp 64, openvpn 96/1090"},
     },
 }
 
